@@ -184,13 +184,17 @@ func c11ChooseConfig(x *mc.X, e *c11Entry) *c11Config {
 	c.langKey = "lang"
 	if c.global == 1 {
 		c.defLang = []string{"en", "es"}[x.Choose(2, "defaultLang")]
-		c.ctxLang = []string{"", "en", "es", "fr"}[x.Choose(4, "ctxLang")]
+		// "es-MX" is installed under exactly that (mixed-case) name; "ES" and "fr" are not installed
+		c.ctxLang = []string{"", "en", "es", "fr", "es-MX", "ES"}[x.Choose(6, "ctxLang")]
 		if x.Choose(2, "langKey") == 1 {
 			c.langKey = "idioma"
 		}
 		c.expLang = c.defLang
 		if c.ctxLang == "en" || c.ctxLang == "es" {
 			c.expLang = c.ctxLang
+		}
+		if c.ctxLang == "es-MX" {
+			c.expLang = "es"
 		}
 	}
 	if !e.noOpts {
@@ -204,9 +208,9 @@ func (c *c11Config) install() {
 	if c.global == 1 {
 		var opts []func(*string)
 		if c.langKey != "lang" {
-			i18n.SetLanguagesErrsMap(map[string]zconst.LangMap{"en": en.Map, "es": es.Map}, c.defLang, i18n.WithLangKey(c.langKey))
+			i18n.SetLanguagesErrsMap(map[string]zconst.LangMap{"en": en.Map, "es": es.Map, "es-MX": es.Map}, c.defLang, i18n.WithLangKey(c.langKey))
 		} else {
-			i18n.SetLanguagesErrsMap(map[string]zconst.LangMap{"en": en.Map, "es": es.Map}, c.defLang)
+			i18n.SetLanguagesErrsMap(map[string]zconst.LangMap{"en": en.Map, "es": es.Map, "es-MX": es.Map}, c.defLang)
 		}
 		_ = opts
 	} else {
